@@ -1,45 +1,45 @@
 import H2V.Lemmas.ConnNoPanicPRespHandles
 /-
   C08 (no panic) — the client response path, part 7: what the operations that DO touch the receive queue of a
-  request stream `k` (response head / DATA / trailers routed to it, the polls of its `ResponseFuture`) do to `Good`.
+  request stream `k` (response head / DATA / trailers routed to it, the polls of its `ResponseFuture`) do to `RGood`.
 -/
 namespace H2V.Lemmas.ConnNoPanicP
 open H2V H2V.Model H2V.Model.Conn H2V.Lemmas.ConnCountsP
 attribute [local irreducible] wrapSubU32 wrapSubUsize
 
--- ===================================================================== `Good` and appends
+-- ===================================================================== `RGood` and appends
 
-theorem Good.of_head {y : Stream} (h : respHead y.pendingRecv = true) : Good y := ⟨respShape_of_head h, fun _ => h⟩
+theorem RGood.of_head {y : Stream} (h : respHead y.pendingRecv = true) : RGood y := ⟨respShape_of_head h, fun _ => h⟩
 
-theorem Good.append_headers {x y : Stream} (g : Good x) {a : Bytes} {f : Fields} (hq : y.pendingRecv = x.pendingRecv ++ [.headers a f]) :
-    Good y := .of_head (by rw [hq]; exact respHead_append_headers a f g.shape)
+theorem RGood.append_headers {x y : Stream} (g : RGood x) {a : Bytes} {f : Fields} (hq : y.pendingRecv = x.pendingRecv ++ [.headers a f]) :
+    RGood y := .of_head (by rw [hq]; exact respHead_append_headers a f g.shape)
 
-theorem Good.append_info {x y : Stream} (g : Good x) {a : Bytes} {f : Fields} (hq : y.pendingRecv = x.pendingRecv ++ [.informational a f])
-    (hs : y.state.isRecvStreaming = false) : Good y :=
+theorem RGood.append_info {x y : Stream} (g : RGood x) {a : Bytes} {f : Fields} (hq : y.pendingRecv = x.pendingRecv ++ [.informational a f])
+    (hs : y.state.isRecvStreaming = false) : RGood y :=
   ⟨by rw [hq]; exact respShape_append_info a f g.shape, fun h => by rw [hs] at h; cases h⟩
 
-theorem Good.append_streaming {x y : Stream} (g : Good x) (hs : x.state.isRecvStreaming = true) {l : List REvent}
-    (hq : y.pendingRecv = x.pendingRecv ++ l) : Good y := .of_head (by rw [hq]; exact respHead_append l (g.head hs))
+theorem RGood.append_streaming {x y : Stream} (g : RGood x) (hs : x.state.isRecvStreaming = true) {l : List REvent}
+    (hq : y.pendingRecv = x.pendingRecv ++ l) : RGood y := .of_head (by rw [hq]; exact respHead_append l (g.head hs))
 
 /-- the shape alone survives when the state is not "receive streaming" -/
-theorem Good.of_shape {x y : Stream} (g : Good x) (hq : y.pendingRecv = x.pendingRecv) (hs : y.state.isRecvStreaming = false) : Good y :=
+theorem RGood.of_shape {x y : Stream} (g : RGood x) (hq : y.pendingRecv = x.pendingRecv) (hs : y.state.isRecvStreaming = false) : RGood y :=
   ⟨by rw [hq]; exact g.shape, fun h => by rw [hs] at h; cases h⟩
 
-theorem RP.good {s s' : Streams} {k : Nat} (h : RP [] s s') (hr : 0 < (s.stream k).refCount) (g : Good (s.stream k)) :
-    Good (s'.stream k) ∧ 0 < (s'.stream k).refCount :=
+theorem RP.good {s s' : Streams} {k : Nat} (h : RP [] s s') (hr : 0 < (s.stream k).refCount) (g : RGood (s.stream k)) :
+    RGood (s'.stream k) ∧ 0 < (s'.stream k).refCount :=
   have r := h.fr k List.not_mem_nil hr
   ⟨r.good g, Nat.lt_of_lt_of_le hr r.ref⟩
 
-/-- frame steps and at most one append while the stream is "receive streaming" keep `Good` -/
-theorem good_of_dec {s s' : Streams} {k : Nat} (hr : 0 < (s.stream k).refCount) (g : Good (s.stream k))
+/-- frame steps and at most one append while the stream is "receive streaming" keep `RGood` -/
+theorem good_of_dec {s s' : Streams} {k : Nat} (hr : 0 < (s.stream k).refCount) (g : RGood (s.stream k))
     (hdec : RP [] s s' ∨ ∃ t e, RP [] s t ∧ RP [] (appendTo t k e) s' ∧ (s.stream k).state.isRecvStreaming = true) :
-    Good (s'.stream k) ∧ 0 < (s'.stream k).refCount := by
+    RGood (s'.stream k) ∧ 0 < (s'.stream k).refCount := by
   rcases hdec with h | ⟨t, e, ht, hap, hstr⟩
   · exact h.good hr g
   · have rt := ht.fr k List.not_mem_nil hr
     have hrt : 0 < (t.stream k).refCount := Nat.lt_of_lt_of_le hr rt.ref
     obtain ⟨hq, _, hrc⟩ := appendTo_stream (live_of_ref_pos hrt) e
-    have ga : Good ((appendTo t k e).stream k) := g.append_streaming hstr (by rw [hq, rt.q])
+    have ga : RGood ((appendTo t k e).stream k) := g.append_streaming hstr (by rw [hq, rt.q])
     exact hap.good (by rw [hrc]; exact hrt) ga
 
 -- ===================================================================== a library reset closes the stream
@@ -132,17 +132,17 @@ theorem resetOnRecvStreamErr_goAway (s : Streams) (k : Nat) (d : Bytes) (r : Rea
     (s.resetOnRecvStreamErr k (.error (.goAway d r i))).1 = s := rfl
 
 /-- after a stream error from `recv_headers` the stream is reset: the queue keeps its shape, nothing streams -/
-theorem good_after_reset {s t : Streams} {k : Nat} (g : Good (s.stream k))
+theorem good_after_reset {s t : Streams} {k : Nat} (g : RGood (s.stream k))
     (hq : (t.stream k).pendingRecv = (s.stream k).pendingRecv) (hrt : 0 < (t.stream k).refCount) (het : ErrOK t)
     (i : Nat) (r : Reason) (init : Initiator) :
-    Good ((t.resetOnRecvStreamErr k (.error (.reset i r init))).1.stream k) ∧
+    RGood ((t.resetOnRecvStreamErr k (.error (.reset i r init))).1.stream k) ∧
     0 < ((t.resetOnRecvStreamErr k (.error (.reset i r init))).1.stream k).refCount := by
   have hrs := (resetOnRecvStreamErr_rp (X := []) t k (.error (.reset i r init))).fr k List.not_mem_nil hrt
   exact ⟨g.of_shape (hrs.q.trans hq) (resetOnRecvStreamErr_closes hrt het i r init), Nat.lt_of_lt_of_le hrt hrs.ref⟩
 
 theorem recvHeadersClosure_good {s : Streams} {k : Nat} (h : HeadersIn) (hr : 0 < (s.stream k).refCount)
-    (hsv : s.counts.isServer = false) (he : ErrOK s) (g : Good (s.stream k)) :
-    Good ((recvHeadersClosure k h s).1.stream k) ∧ 0 < ((recvHeadersClosure k h s).1.stream k).refCount := by
+    (hsv : s.counts.isServer = false) (he : ErrOK s) (g : RGood (s.stream k)) :
+    RGood ((recvHeadersClosure k h s).1.stream k) ∧ 0 < ((recvHeadersClosure k h s).1.stream k).refCount := by
   have hk := live_of_ref_pos hr
   unfold recvHeadersClosure
   dsimp only
@@ -176,7 +176,7 @@ theorem recvHeadersClosure_good {s : Streams} {k : Nat} (h : HeadersIn) (hr : 0 
         have hrt : 0 < (t.stream k).refCount := Nat.lt_of_lt_of_le hr0 rt.ref
         obtain ⟨hq, hstate, hrc⟩ := appendTo_stream (live_of_ref_pos hrt) e
         have hq' : ((appendTo t k e).stream k).pendingRecv = (s.stream k).pendingRecv ++ [e] := by rw [hq, rt.q, hst]
-        have ga : Good ((appendTo t k e).stream k) := by
+        have ga : RGood ((appendTo t k e).stream k) := by
           rcases hev with ⟨a, f, rfl⟩ | ⟨hinf, a, f, rfl⟩
           · exact g.append_headers hq'
           · refine g.append_info hq' ?_
@@ -200,7 +200,7 @@ theorem recvHeadersClosure_good {s : Streams} {k : Nat} (h : HeadersIn) (hr : 0 
       generalize s.recvRecvTrailers k h = p at hdec
       obtain ⟨s1, res⟩ := p
       dsimp only at hdec
-      have h1 : Good (s1.stream k) ∧ 0 < (s1.stream k).refCount := by
+      have h1 : RGood (s1.stream k) ∧ 0 < (s1.stream k).refCount := by
         refine good_of_dec hr g ?_
         rcases hdec with h | ⟨t, e, ht, hap, st', u, hrc⟩
         · exact .inl h
@@ -209,8 +209,8 @@ theorem recvHeadersClosure_good {s : Streams} {k : Nat} (h : HeadersIn) (hr : 0 
 
 /-- **a HEADERS frame routed to a request stream keeps its queue in shape** (client, quota not exhausted) -/
 theorem recvHeaders_good {s : Streams} {k : Nat} (h : HeadersIn) (hfk : s.store.findKey? h.sid = some k)
-    (hr : 0 < (s.stream k).refCount) (hsv : s.counts.isServer = false) (he : ErrOK s) (g : Good (s.stream k)) :
-    Good ((s.recvHeaders h).1.stream k) := by
+    (hr : 0 < (s.stream k).refCount) (hsv : s.counts.isServer = false) (he : ErrOK s) (g : RGood (s.stream k)) :
+    RGood ((s.recvHeaders h).1.stream k) := by
   unfold Streams.recvHeaders
   dsimp only
   split
@@ -228,20 +228,20 @@ theorem recvHeaders_good {s : Streams} {k : Nat} (h : HeadersIn) (hfk : s.store.
 -- ===================================================================== `Inner::recv_data` on the stream itself
 
 theorem recvDataClosure_good {s : Streams} {k : Nat} (payload : Bytes) (eos : Bool) (pad : Option Nat)
-    (hr : 0 < (s.stream k).refCount) (g : Good (s.stream k)) :
-    Good ((recvDataClosure k payload eos pad s).1.stream k) ∧ 0 < ((recvDataClosure k payload eos pad s).1.stream k).refCount := by
+    (hr : 0 < (s.stream k).refCount) (g : RGood (s.stream k)) :
+    RGood ((recvDataClosure k payload eos pad s).1.stream k) ∧ 0 < ((recvDataClosure k payload eos pad s).1.stream k).refCount := by
   unfold recvDataClosure
   have hdec := recvRecvData_dec (X := []) s k payload eos pad
   generalize s.recvRecvData k payload eos pad = p at hdec
   obtain ⟨s1, res⟩ := p
   dsimp only at hdec ⊢
-  have h1 : Good (s1.stream k) ∧ 0 < (s1.stream k).refCount := good_of_dec hr g hdec
+  have h1 : RGood (s1.stream k) ∧ 0 < (s1.stream k).refCount := good_of_dec hr g hdec
   refine RP.good ?_ h1.2 h1.1
   rp_auto
 
 theorem recvData_good {s : Streams} {k : Nat} (id : Nat) (payload : Bytes) (eos : Bool) (pad : Option Nat)
-    (hfk : s.store.findKey? id = some k) (hr : 0 < (s.stream k).refCount) (g : Good (s.stream k)) :
-    Good ((s.recvData id payload eos pad).1.stream k) := by
+    (hfk : s.store.findKey? id = some k) (hr : 0 < (s.stream k).refCount) (g : RGood (s.stream k)) :
+    RGood ((s.recvData id payload eos pad).1.stream k) := by
   rw [recvData_some payload eos pad hfk]
   have h1 := recvDataClosure_good payload eos pad hr g
   have : (s.transition k (recvDataClosure k payload eos pad)).1 =
@@ -278,8 +278,8 @@ theorem recvPollTrailers_rp' {X : List Nat} (s : Streams) (k : Nat) (t : String)
   · rp_auto
 
 /-- `poll_informational` pops a leading interim head only -/
-theorem recvPollInformational_good {s : Streams} {k : Nat} (hr : 0 < (s.stream k).refCount) (g : Good (s.stream k)) (t : String) :
-    Good ((s.recvPollInformational k t).1.stream k) := by
+theorem recvPollInformational_good {s : Streams} {k : Nat} (hr : 0 < (s.stream k).refCount) (g : RGood (s.stream k)) (t : String) :
+    RGood ((s.recvPollInformational k t).1.stream k) := by
   have hk := live_of_ref_pos hr
   unfold Streams.recvPollInformational
   rcases hq : (s.stream k).pendingRecv with _ | ⟨_ | _ | _ | _ | _, rest⟩ <;> dsimp only
@@ -303,9 +303,9 @@ theorem modStream_recvTask_npi {s : Streams} (hn : NPI (fun _ => False) s) {k : 
 /-- **`poll_response` on a stream whose future has not completed**: it does not panic, and unless it completes the
     future (any answer but `Pending`) the queue stays in shape -/
 theorem recvPollResponse_spec (fuel : Nat) {s : Streams} (hn : NPI (fun _ => False) s) {k : Nat} (hr : 0 < (s.stream k).refCount)
-    (g : Good (s.stream k)) (tag : String) :
+    (g : RGood (s.stream k)) (tag : String) :
     NPI (fun _ => False) (Streams.recvPollResponse fuel s k tag).1 ∧
-    ((Streams.recvPollResponse fuel s k tag).2 = .pending → Good ((Streams.recvPollResponse fuel s k tag).1.stream k)) := by
+    ((Streams.recvPollResponse fuel s k tag).2 = .pending → RGood ((Streams.recvPollResponse fuel s k tag).1.stream k)) := by
   induction fuel generalizing s with
   | zero => exact ⟨hn, fun _ => g⟩
   | succ n ih =>
@@ -329,7 +329,7 @@ theorem recvPollResponse_spec (fuel : Nat) {s : Streams} (hn : NPI (fun _ => Fal
 
 /-- **`Recv::poll_response` cannot panic on a stream whose `ResponseFuture` has not completed** -/
 theorem recvPollResponse_good_npi {s : Streams} (hn : NPI (fun _ => False) s) {k : Nat} (hr : 0 < (s.stream k).refCount)
-    (g : Good (s.stream k)) (fuel : Nat) (tag : String) : NPI (fun _ => False) (Streams.recvPollResponse fuel s k tag).1 :=
+    (g : RGood (s.stream k)) (fuel : Nat) (tag : String) : NPI (fun _ => False) (Streams.recvPollResponse fuel s k tag).1 :=
   (recvPollResponse_spec fuel hn hr g tag).1
 
 end H2V.Lemmas.ConnNoPanicP
